@@ -546,10 +546,3 @@ def READ_OPTS_PLAIN(o: dict) -> bool:
             and not o.get("return_named_type") and not o.get("return_named_type_override")
             and isinstance(o.get("handle_unicode_errors", "strict"), str))
 
-
-@spec
-def NO_BYTES_ARRAYS(d: object, s: object, ns: dict) -> bool:
-    """domain restriction of the deductive writer contracts: a datum written directly under
-    an array schema is a list or tuple (bytes-as-int-sequences are covered by the bounded
-    stand-in only)"""
-    return implies(TYPE(s) == "array", isinstance(d, (list, tuple)))
